@@ -1,4 +1,4 @@
 From Coq Require Extraction ExtrOcamlBasic.
 From Centro Require Import Base.Sx Model.FillHoles Spec.FillHoles.
 Extraction Language OCaml.
-Extraction "extracted/c08.ml" entry_fill entry_fill_bl entry_fill_eq entry_check entry_spec.
+Extraction "extracted/c08.ml" entry_fill entry_fill_bl entry_fill_eq entry_gen_eq entry_check entry_spec entry_label_ok.
